@@ -30,7 +30,9 @@ func genModUp(t *rapid.T) ModUpCase {
 	if h.Thorough() {
 		maxLogN, maxQ, maxP = 7, 10, 4
 	}
-	c.Chain = genChains(t, 3, maxLogN, 1, maxQ, 1, maxP, false)
+	wideChains = true
+	c.Chain = genChains(t, 3, maxLogN, 1, maxQ, 1, maxP, true)
+	wideChains = false
 	c.LevelQ = rapid.IntRange(0, len(c.Chain.Q)-1).Draw(t, "levelQ")
 	c.LevelP = rapid.IntRange(0, len(c.Chain.P)-1).Draw(t, "levelP")
 	c.PtoQ = rapid.Bool().Draw(t, "PtoQ")
@@ -126,13 +128,17 @@ func runModUp(c ModUpCase, rec *h.Rec) error {
 	rec.Classf("src=%s", sizeClass(src))
 	rec.Classf("dst=%s", sizeClass(dst))
 	rec.Classf("nsrc=%d", len(src))
+	rec.Classf("ci=%v", c.Chain.CI)
+	if len(src) >= 9 && sizeClass(src) == "max" {
+		rec.Class("src>=9x60/61bit")
+	}
 	recKinds(rec, c.Coeffs)
 	rec.Classf("out-over-q=%d", over)
 	if shifted {
 		rec.Class("k!=0 seen (|x|>=M/4)")
 	}
 	if hasBoundary(c.Coeffs) && quarterHit {
-		rec.NonTrivial(fmt.Sprintf("%s|N=%d|lq=%d/%d|lp=%d/%d|%s>%s|%s", name, N, c.LevelQ, len(c.Chain.Q)-1, c.LevelP, len(c.Chain.P)-1,
+		rec.NonTrivial(fmt.Sprintf("%s|N=%d|ci=%v|lq=%d/%d|lp=%d/%d|%s>%s|%s", name, N, c.Chain.CI, c.LevelQ, len(c.Chain.Q)-1, c.LevelP, len(c.Chain.P)-1,
 			sizeClass(src), sizeClass(dst), kindsOf(c.Coeffs)))
 	}
 	return nil
@@ -163,7 +169,9 @@ func genModDown(t *rapid.T) ModDownCase {
 		maxLogN, maxQ, maxP = 7, 10, 4
 	}
 	c.Op = []string{"QPtoQ", "QPtoQNTT", "QPtoP"}[rapid.IntRange(0, 2).Draw(t, "op")]
-	c.Chain = genChains(t, 3, maxLogN, 1, maxQ, 1, maxP, c.Op == "QPtoQNTT")
+	wideChains = true
+	c.Chain = genChains(t, 3, maxLogN, 1, maxQ, 1, maxP, true)
+	wideChains = false
 	c.LevelQ = rapid.IntRange(0, len(c.Chain.Q)-1).Draw(t, "levelQ")
 	c.LevelP = rapid.IntRange(0, len(c.Chain.P)-1).Draw(t, "levelP")
 	c.InPlace = rapid.Bool().Draw(t, "inPlace")
@@ -273,6 +281,9 @@ func runModDown(c ModDownCase, rec *h.Rec) error {
 	recKinds(rec, c.Coeffs)
 	rec.Classf("ci=%v", c.Chain.CI)
 	rec.Classf("out-over-q=%d", over)
+	if len(Q) >= 9 && sizeClass(Q) == "max" {
+		rec.Class("Q>=9x60/61bit")
+	}
 	if offBy1 > 0 {
 		rec.Class("some |error|=1")
 	} else {
